@@ -26,6 +26,8 @@ func c15(c *Ctx) {
 	r.Decides("the three maps are accessed only under quotaTopology.lock (write lock for writes)")
 	r.Decides("for a non-root parent the ancestor walk cannot be skipped; only quotas labelled is-root=true are exempt from the children-min-sum check")
 	r.Declines("min-sum arithmetic, key-set agreement of dimensions along the tree, namespace uniqueness as a counting property")
+	c15walkComplete(c)
+	c15indexFollowsRecord(c)
 	c15items(c)
 	c15sums(c)
 	c15values(c)
